@@ -485,6 +485,8 @@ def rule_chromatwin(ctx):
     sh = ctx.S.get(h.qual)
     me = [c for c in sh.calls() if c.callee == "util.match_events"]
     need(len(me) >= 1, R, "compute_num_true_positives: no match_events call")
+    if len(me) != 2 and any(n_ == "**" for c in me for n_, _ in c.kw):
+        raise AnalysisError(R, "compute_num_true_positives: match_events receives its keywords through a computed dict (**%s); which call uses the modular distance is not read" % "; ".join(tm.show(v_, 2) for c in me for n_, v_ in c.kw if n_ == "**"))
     if len(me) != 2:
         has_mod = any(dict(c.kw).get("distance") is not None for c in me)
         yield ob(R, h, "multipitch.compute_num_true_positives:twin", False, "chroma=True no longer selects a separate match with distance=_outer_distance_mod_n (%s): pitch classes across the octave wrap (11.9 vs 0.1) stop matching" % ("a single call, always with the modular distance" if has_mod else "a single call without the modular distance"))
